@@ -552,6 +552,7 @@ func randomInput(r *vh.Rand, maxLen int) string {
 // (b) one constant byte whose run never is a boundary and one whose run always is.
 func harvestBuz(r *vh.Rand) (win []byte, never, always int) {
 	never, always = -1, -1
+	defer func() { recover() }() // a broken splitter must fail in exec, not in the generator
 	data := randBytes(uint64(r.Intn(1<<30)), 3<<20)
 	s := chunk.NewBuzhash(bytes.NewReader(data))
 	for i := 0; i < 8; i++ {
@@ -592,10 +593,15 @@ func gen(r *vh.Rand, tier string, n int, emit func(vh.Case)) {
 			logAvg := -1
 			if avg > 0 {
 				logAvg = bits.Len64(avg) - 1 // floor(log2 avg), from the generator's own knowledge of the spec
-			} else if s, err := chunk.FromString(bytes.NewReader(nil), spec); err == nil {
-				if p := describe(s); p.kind == "rabin" { // arbitrary spec text: take the mask the parser chose
-					logAvg = int(p.log)
-				}
+			} else {
+				func() {
+					defer func() { recover() }() // a panicking parser must fail in exec, not here
+					if s, err := chunk.FromString(bytes.NewReader(nil), spec); err == nil {
+						if p := describe(s); p.kind == "rabin" { // arbitrary spec text: take the mask the parser chose
+							logAvg = int(p.log)
+						}
+					}
+				}()
 			}
 			if logAvg >= 0 {
 				if cs := rabinCands(inputOf(input), uint(logAvg)); len(cs) > 0 {
